@@ -327,6 +327,8 @@ def run(res, tier):
     # structs with bit-fields: TrackerBits.tla (L2 with allocation units) model-checked and replayed
     import c02_bits
     c02_bits.run(res, tier)
+    # C++ classes with a vtable pointer and bases: TrackerCxx.tla, clang as the environment of the model
+    c02_bits.cxx_classes(res, tier)
     # members libclang reports no offset for (anonymous structs), under every attribute class
     c02_bits.anon_members(res, tier, decls, attr_class,
                           lambda d: d["pack"] > 0 and any(c == "l" for c in d["codes"]))
